@@ -1950,6 +1950,22 @@ int EGLPNUM_TYPENAME_ILLlib_chgsense (
 
 	for (i = 0; i < num; i++)
 	{
+		if (rowlist[i] < 0 || rowlist[i] >= qslp->nrows)
+		{
+			QSlog("EGLPNUM_TYPENAME_ILLlib_chgsense called with bad row index: %d", rowlist[i]);
+			rval = 1;
+			ILL_CLEANUP;
+		}
+		if (sense[i] != 'R' && sense[i] != 'E' && sense[i] != 'G' && sense[i] != 'L')
+		{
+			QSlog("illegal sense %c in EGLPNUM_TYPENAME_ILLlib_chgsense", sense[i]);
+			rval = 1;
+			ILL_CLEANUP;
+		}
+	}
+
+	for (i = 0; i < num; i++)
+	{
 		j = qslp->rowmap[rowlist[i]];
 		if (A->matcnt[j] != 1)
 		{
